@@ -10,7 +10,7 @@ WT=/tmp/sv-$ID-$$
 git -C /repo worktree add -q --detach $WT HEAD || exit 2
 cleanup() { git -C /repo worktree remove --force $WT >/dev/null 2>&1; }
 trap cleanup EXIT
-if ! git -C $WT apply $SEED/_seed/patch.diff; then echo "PATCH-DOES-NOT-APPLY"; exit 2; fi
+if ! git -C $WT apply $SEED/_seed/patch.diff 2>/dev/null; then if git -C $WT apply --3way $SEED/_seed/patch.diff >/dev/null 2>&1; then git -C $WT reset -q; git -C $WT diff > $SEED/_seed/patch.rebased.diff; cp $SEED/_seed/patch.rebased.diff $SEED/_seed/patch.diff; echo "patch rebased onto the current HEAD (3-way)"; else echo "PATCH-DOES-NOT-APPLY"; exit 2; fi; fi
 (cd $WT && go build ./... ) || { echo "BUILD-FAILS"; exit 2; }
 SUITE=$(cd $WT && go test -vet=off -count=1 ./... 2>&1 | grep -v "no test files" | grep -v "^ok" | head -5)
 if [ -n "$SUITE" ]; then echo "SUITE-FAILS: $SUITE"; else echo "suite: ok with the change"; fi
